@@ -28,6 +28,7 @@ EXPLANATION = (
     "_wrap_handler, whose own loop is inside try/except Exception. Not decided: that the exchange is "
     "byte-identical (handlers may call abort()/release() themselves), logging side effects."
     " Third session: (logging-total) logging filters installed by the package treat record.msg / record.args as opaque objects (the package logs caught handler exceptions as LOGGER.exception(exc); what a filter raises propagates out of the logging call inside the containment's except body); (lock-released) every <lock>.acquire() is followed by the matching release() on every exit of the function after a successful acquire, exceptional exits included (the standard logging handlers share one AE-wide non-reentrant lock and trigger() swallows what they raise)."
+    " Fifth round (end): (subassociation-released) an association a service class opened itself is released or aborted on every return once established; (exception-opaque) where a handler's exception is caught it is only logged lazily, re-raised or identity-tested (read from the source as written)."
 )
 
 # the three events whose handlers are documented (docs/reference/events, _handlers.py) to be
